@@ -29,7 +29,7 @@ def main(ctx):
 
     def J(f, *a, **k):
         jobs.append(lambda: f(ctx, *a, **k))
-    CHK = ["--bounds-check", "--pointer-check", "--signed-overflow-check", "--div-by-zero-check", "--unwind", "13", "--unwinding-assertions"]
+    CHK = ["--bounds-check", "--pointer-check", "--signed-overflow-check", "--div-by-zero-check", "--unwind", "13", "--unwinding-assertions", "--object-bits", "12"]
     cc = ["-I" + SPEC, "-DNDEBUG"]
     # ---- M1: class Stage ----
     st_srcs = [stage_cpp, os.path.join(SPEC, "stage_spec.c")]
